@@ -518,6 +518,51 @@ func runC15(t *testing.T, run *mc.Run) int {
 	if busy != "" {
 		viol("failure-while-read-busy", nil, "write failure while a login is in flight", busy)
 	}
+	// ... and the same while the reassembler also has something harmless to say: an event of the bound session is
+	// flushed by the maintenance goroutine (its records stopped coming) and its write stalls; a login keeps Read
+	// busy; the parser goroutine meanwhile pushes a record whose serial jumps ahead (events were lost); then the
+	// stalled write fails. Whatever else was reported in between, the failure stops the processor.
+	n++
+	var lost string
+	bubble(t, func() {
+		r := startRead(0)
+		defer r.stop()
+		r.offerLogin(mkLogin(bindPID, "1"))
+		r.offerLine(bindLines("7") + "\n")
+		g := auditgen.Syscall(1700000300, 9500, "7", "4243", "yes", []string{"ls"}, 1, false)
+		gate := make(chan error)
+		r.w.gate = gate
+		for _, rec := range g.Recs[:2] { // the event stays incomplete: the maintenance goroutine will flush it
+			r.offerLine(rec.Line + "\n")
+		}
+		vsleep(3 * time.Second)
+		if r.w.gate != nil {
+			lost = "harness: the incomplete event was not flushed by the maintenance goroutine"
+			return
+		}
+		r.offerLogin(mkLogin(5555, "2")) // Read takes it and now waits for the correlator
+		// a record far ahead in the serial numbers, of no session: "events lost" is all there is to say about it
+		go r.offerLine(auditgen.Simple("USER_ACCT", 1700000400, 99500, "4294967295", "9", "success").Recs[0].Line + "\n")
+		vsleep(10 * time.Millisecond)
+		go r.offerLine(auditgen.Simple("USER_ACCT", 1700000401, 99501, "4294967295", "9", "success").Recs[0].Line + "\n")
+		vsleep(10 * time.Millisecond)
+		select {
+		case gate <- errInjected:
+		default:
+			lost = "harness: the stalled write was not waiting any more"
+			return
+		}
+		vsleep(3 * time.Second)
+		switch {
+		case !r.returned:
+			lost = "a write failure reported while Read was busy (and after the reassembler had reported lost events) was dropped: the audit processor keeps running"
+		case !errors.Is(r.ret, errInjected):
+			lost = fmt.Sprintf("returned %v, want an error wrapping the write failure", r.ret)
+		}
+	})
+	if lost != "" {
+		viol("failure-while-read-busy-after-lost-events", nil, "stalled write of a flushed event, login in flight, serial gap, then the write fails", lost)
+	}
 	// observation (not judged): a blank record arrives from the pipe as "\n"
 	var blank string
 	bubble(t, func() {
